@@ -304,7 +304,7 @@ Proof.
   unfold calc_pos_hevc, pos_fua_start, pos_fua_middle, pos_fua_end, pos_ap, pos_single, pos_stapa. cbn [andb].
   destruct (lenN b <? 1) eqn:E1. { exists 0. repeat split; try lia. }
   apply N.ltb_ge in E1. destruct (idx_ok s_calchevc_index b 0) as [b0 ->]; [lia|]. cbn [bind].
-  destruct (hevc_single_type (b0 mod 128 / 2)). { exists 1. repeat split; try lia. }
+  destruct (hevc_single_type true (b0 mod 128 / 2)). { exists 1. repeat split; try lia. }
   destruct (b0 mod 128 / 2 =? 49).
   - destruct (lenN b <? 3) eqn:E3. { exists 0. repeat split; try lia. }
     apply N.ltb_ge in E3. destruct (idx_ok s_calchevc_index b 2) as [b2 ->]; [lia|]. cbn [bind].
